@@ -105,7 +105,7 @@ var labelRe = regexp.MustCompile(`^\[([A-Za-z0-9_.]+)\]\s*`)
 var propsRe = regexp.MustCompile(`^@([A-Z0-9,]+)\s+`)
 
 var clauseKeywords = map[string]bool{
-	"func": true, "iface": true, "spec": true, "lemma": true, "axiom": true, "requires": true, "ensures": true, "modifies": true, "loop": true,
+	"func": true, "iface": true, "fieldfunc": true, "spec": true, "lemma": true, "axiom": true, "requires": true, "ensures": true, "modifies": true, "loop": true,
 	"invariant": true, "decreases": true, "trusted": true, "props": true, "ghost": true, "at": true,
 	"pure": true, "nopanic": true, "replay": true, "bounded": true, "skip": true, "note": true,
 }
@@ -167,10 +167,13 @@ func (cs *ContractSet) ParseContractFile(pkgPath, filename string, f *ast.File, 
 			return cl, nil
 		}
 		switch kw {
-		case "func", "iface":
+		case "func", "iface", "fieldfunc":
 			key := strings.TrimSpace(rest)
+			if kw == "fieldfunc" {
+				key = "field:" + key
+			}
 			cur = &FuncContract{PkgPath: pkgPath, Key: key, Loops: map[int]*LoopContract{}, File: filename, Line: l.line,
-				Replay: map[string]string{}, Abstract: kw == "iface", Skip: map[string]bool{}, UsedBy: map[string]bool{}}
+				Replay: map[string]string{}, Abstract: kw == "iface" || kw == "fieldfunc", Skip: map[string]bool{}, UsedBy: map[string]bool{}}
 			curLoop = nil
 			id := pkgPath + "::" + key
 			if _, dup := cs.Funcs[id]; dup {
